@@ -55,6 +55,31 @@ Proof.
 Qed.
 Print Assumptions C05_enc_is_ige_aes.
 
+(* ---- 1b. histories: for every list of calls made one after the other in a process, the result of a call
+        is the IGE definition on the values passed to THAT call, whatever the earlier (and later) calls were -
+        other keys, the same key buffer overwritten in place, refused calls, ...
+        For the Gallina model this is immediate (run_history maps one pure function over the calls: the model
+        of the package has no state between calls); it is stated because it is exactly the claim that the
+        correspondence over call SEQUENCES ties to the code: there the harness reuses and overwrites the same
+        key / iv / input / output buffers between calls and compares every step with this model evaluated on
+        the values at call time.  A key-schedule cache that keeps the caller's key slice breaks that tie. ---- *)
+Theorem C05_history_independent : forall (E D : bytes -> bytes -> bytes),
+  (forall k b, length (E k b) = 16) -> (forall k b, length (D k b) = 16) ->
+  forall (pre post : list call) key iv data out n,
+  key_len_ok key = true -> length iv = 32 -> length data = 16 * n -> 1 <= n -> length data <= length out ->
+  nth_error (run_history E D (pre ++ CEnc data out key iv :: post)) (length pre)
+    = Some (Done, ige_encrypt E key iv data ++ skipn (length data) out, data) /\
+  nth_error (run_history E D (pre ++ CDec data out key iv :: post)) (length pre)
+    = Some (Done, ige_decrypt D key iv data ++ skipn (length data) out, data).
+Proof. exact history_independent. Qed.
+Print Assumptions C05_history_independent.
+
+(* and in general, valid or not: call number |pre| is answered by run_call of its own arguments *)
+Theorem C05_history_pure : forall (E D : bytes -> bytes -> bytes) pre c post,
+  nth_error (run_history E D (pre ++ c :: post)) (length pre) = Some (run_call E D c).
+Proof. exact run_history_nth. Qed.
+Print Assumptions C05_history_pure.
+
 (* ---- 2. decryption inverts encryption (code level, through both loops) ---- *)
 Theorem C05_dec_enc : forall (E D : bytes -> bytes -> bytes),
   (forall k b, length (E k b) = 16) -> (forall k b, length (D k b) = 16) ->
